@@ -207,10 +207,35 @@ def run(ctx):
             ctx.case(("block", op, sc.fp_of(v)), True)
             if compare(ctx, v, op, got, 1e-9, "DataArray(lat,lon)", "float64"):
                 ctx.replayed()
+    # ---- hmax with a time axis: k = sqrt(ln(N)/2), N = round(mean time step / Tm02). The records are 5400 s apart on average
+    # but not uniformly (the first step is longer), so the mean step is not any single step
+    for (F, D), vs in list(groups.items()):
+        sub = [v for v in vs if v["hmax_t"] != ["nan"]][: (12 if ctx.quick else 200)]
+        if len(sub) < 3:
+            continue
+        n = len(sub)
+        t = np.arange(n) * 5400
+        t[1:-1] += np.where(np.arange(1, n - 1) % 2 == 1, 1200, -900)
+        batch = L.build_batch(list(F), list(D), [v["E"] for v in sub], dim="time").assign_coords(
+            time=np.datetime64("2020-01-01T00:00:00") + t.astype("timedelta64[s]"))
+        for how, acc in (("DataArray", batch.spec), ("Dataset", batch.to_dataset(name="efth").spec)):
+            res = np.asarray(acc.hmax().values, dtype=float)
+            for v, got in zip(sub, res):
+                ratio = 5400.0 / L.ev(v["tm02"])
+                if abs(ratio - math.floor(ratio) - 0.5) < 1e-6:
+                    continue        # the wave count sits on a rounding tie
+                ctx.case(("hmax_t", how, sc.fp_of(v)), True)
+                exp = L.ev(v["hmax_t"])
+                if L.close(exp, got, rel=1e-9, abs_=1e-9):
+                    ctx.replayed()
+                else:
+                    ctx.violation({"op": "hmax", "via": how, "time_axis": "non-uniform"},
+                                  "hmax via %s on a non-uniform time axis (mean step 5400 s): expected %.12g = sqrt(ln(N)/2) hs with N = round(5400 / Tm02), "
+                                  "library returned %.12g" % (how, exp, got), {"F": v["F"], "D": v["D"], "E": v["E"], "steps_s": np.diff(t).tolist()})
     dispersion(ctx)
     depth_terms(ctx, some)
     ctx.assume("exactness holds on the lattice (frequencies multiples of 0.05 Hz, whole degrees, integer energies); float32 compared at 3e-6")
-    ctx.assume("hmax is checked without a time axis (k = 1.86); swe's documented clamp (<0.001 -> 1.0) is accepted")
+    ctx.assume("hmax is checked without a time axis (k = 1.86) and with a non-uniform one (mean step); swe's documented clamp (<0.001 -> 1.0) is accepted")
 
 
 def replay(ctx, rep):
